@@ -346,6 +346,11 @@ def make_world(fs):
                     h.write("export chunk %d" % i)
             finally:
                 h.close()
+            if getattr(fs, "warn", False):
+                # a dataset that makes dclab warn while it is exported
+                # (unknown configuration key, limited export size, ...)
+                import warnings
+                warnings.warn("verif: warning during export", UserWarning)
 
     class Cfg(dict):
         def tostring(self, sections=None):
@@ -495,6 +500,7 @@ def expected_outputs(p, outs):
 
 def run_once(p, fault_at, kind):
     fs = FS(fault_at, kind)
+    fs.warn = bool(p.get("warn"))
     tasks, FPath = make_world(fs)
     inputs, outs = scenario(fs, FPath, p)
     in_ids = {x: fs.files[x].ident for x in inputs}
@@ -576,6 +582,11 @@ def cases(tier, seed):
                 out.append(("%s %s distinct stale=%s" % (t, kind, stale),
                             dict(task=t, kind=kind, out="distinct",
                                  stale=stale)))
+        if t in ("split", "join", "compress"):
+            for kind in ("raise", "kill"):
+                out.append(("%s %s distinct warnings" % (t, kind),
+                            dict(task=t, kind=kind, out="distinct",
+                                 stale=False, warn=True)))
         if t != "split":
             for variant in ("same-as-input", "input-without-suffix"):
                 if t == "tdms2rtdc":
@@ -605,7 +616,8 @@ _RCACHE = {}
 def replay(case, params, v):
     """real files + the real task; faults are injected by wrapping the real
     h5py / pathlib operations that the task performs (in a forked child)"""
-    key = (params["task"], params["out"], str(v.get("what")))
+    key = (params["task"], params["out"], str(v.get("what")),
+           bool(params.get("warn")), str(params.get("stale")))
     if key not in _RCACHE:
         _RCACHE[key] = _replay(case, params, v)
     return _RCACHE[key]
@@ -613,6 +625,7 @@ def replay(case, params, v):
 
 def _replay(case, params, v):
     p = params
+    WARN_INPUT[0] = bool(p.get("warn"))
     vals = v.get("values") or {}
     what = str(v.get("what"))
     if what == "input modified" and p["out"] != "distinct":
@@ -627,7 +640,23 @@ def _replay(case, params, v):
                         str(v.get("detail")))
 
 
+WARN_INPUT = [False]
+
+
 def _make_input(path, k=0):
+    import dclab.rtdc_dataset.writer as W
+    if WARN_INPUT[0]:
+        _make_input_plain(path, k)
+        import h5py
+        with h5py.File(path, "a") as h:
+            # opening this file makes dclab emit an
+            # UnknownConfigurationKeyWarning
+            h.attrs["setup:verif unknown key"] = 1
+        return
+    _make_input_plain(path, k)
+
+
+def _make_input_plain(path, k=0):
     import dclab.rtdc_dataset.writer as W
     with W.RTDCWriter(path, mode="reset") as hw:
         hw.store_feature("deform", np.linspace(.01, .02, 5) + k)
